@@ -55,6 +55,12 @@ _real_repr = builtins.repr
 _real_getattr = builtins.getattr
 
 
+def _hexdigit(n):
+    # arithmetic instead of table indexing: indexing a str with a symbolic int realises it
+    # (a 16-way fork per nibble); this forks two ways and keeps the digit symbolic
+    return chr(48 + n) if n < 10 else chr(87 + n)
+
+
 def py_ascii(obj):
     """Pure-Python model of builtins.ascii for str arguments (validated against the builtin by
     vf.models.validate_ascii at check start).  Other argument types go to the real builtin."""
@@ -85,20 +91,18 @@ def py_ascii(obj):
         elif 32 <= o < 127:
             body.append(c)
         elif o < 256:
-            body.append("\\x" + HEX[o >> 4] + HEX[o & 15])
+            body.append("\\x" + _hexdigit((o >> 4) & 15) + _hexdigit(o & 15))
         elif o < 65536:
-            body.append(
-                "\\u" + HEX[(o >> 12) & 15] + HEX[(o >> 8) & 15] + HEX[(o >> 4) & 15] + HEX[o & 15]
-            )
+            body.append("\\u" + _hexdigit((o >> 12) & 15) + _hexdigit((o >> 8) & 15) + _hexdigit((o >> 4) & 15) + _hexdigit(o & 15))
         else:
             body.append(
                 "\\U00"
-                + HEX[(o >> 20) & 15]
-                + HEX[(o >> 16) & 15]
-                + HEX[(o >> 12) & 15]
-                + HEX[(o >> 8) & 15]
-                + HEX[(o >> 4) & 15]
-                + HEX[o & 15]
+                + _hexdigit((o >> 20) & 15)
+                + _hexdigit((o >> 16) & 15)
+                + _hexdigit((o >> 12) & 15)
+                + _hexdigit((o >> 8) & 15)
+                + _hexdigit((o >> 4) & 15)
+                + _hexdigit(o & 15)
             )
     return q + "".join(body) + q
 
@@ -173,7 +177,7 @@ def setup(models=()):
 
         def _wants_codeobj(self, codeobj):
             fname = codeobj.co_filename
-            if fname in ("<source>", "<converted>", "<string>") or fname.endswith(("vf/rt.py", "vf/kernels.py")):
+            if fname in ("<source>", "<converted>", "<string>") or fname.endswith("vf/rt.py") or "/vf/kernels/" in fname or "/vf/models/" in fname:
                 return False
             return _orig_wants(self, codeobj)
 
